@@ -181,6 +181,9 @@ class Tr:
         # x.astype(...) is the identity here
         if isinstance(f, ast.Attribute) and f.attr == "astype":
             return self.expr(f.value)
+        # jnp.asarray(x, dtype=float): a dtype conversion to floating point, value preserving in the exact model
+        if ast.unparse(f) == "jnp.asarray" and len(n.args) == 1 and all(k.arg == "dtype" and ast.unparse(k.value) == "float" for k in n.keywords):
+            return self.expr(n.args[0])
         if isinstance(f, ast.Attribute) and f.attr == "sum" and not n.args:
             v = self.expr(f.value)
             if v[1] == "V":
